@@ -227,9 +227,9 @@ package internals
 //@   requires s != nil
 //@   modifies s.M, anyelems(Ptr), mapsof(ZogIssueMap), L(box(s))
 //@   ensures[C02] nonnil: s.M != nil
-//@   ensures[C10] filed_under_its_path: has(s.M, mapkey(p)) && len(s.M[mapkey(p)]) >= 1 && s.M[mapkey(p)][len(s.M[mapkey(p)])-1] == err
-//@   ensures[C10] appended_to_its_key: old(s.M) != nil && mapkey(p) != "$first" ==> len(s.M[mapkey(p)]) == old(ite(has(s.M, mapkey(p)), len(s.M[mapkey(p)]), 0)) + 1
-//@   ensures[C10] earlier_issues_of_the_key_kept: old(s.M) != nil && mapkey(p) != "$first" && old(has(s.M, mapkey(p))) ==> forall(i, 0, old(len(s.M[mapkey(p)])), s.M[mapkey(p)][i] == old(s.M[mapkey(p)][i]))
+//@   ensures[C10,C02] filed_under_its_path: has(s.M, mapkey(p)) && len(s.M[mapkey(p)]) >= 1 && s.M[mapkey(p)][len(s.M[mapkey(p)])-1] == err
+//@   ensures[C10,C02] appended_to_its_key: old(s.M) != nil && mapkey(p) != "$first" ==> len(s.M[mapkey(p)]) == old(ite(has(s.M, mapkey(p)), len(s.M[mapkey(p)]), 0)) + 1
+//@   ensures[C10,C02] earlier_issues_of_the_key_kept: old(s.M) != nil && mapkey(p) != "$first" && old(has(s.M, mapkey(p))) ==> forall(i, 0, old(len(s.M[mapkey(p)])), s.M[mapkey(p)][i] == old(s.M[mapkey(p)][i]))
 //@   ensures[C10] first_is_the_first_issue: old(s.M) == nil && mapkey(p) != "$first" ==> has(s.M, "$first") && len(s.M["$first"]) == 1 && s.M["$first"][0] == err && len(s.M[mapkey(p)]) == 1
 //@   ensures[C10] first_never_changes_later: old(s.M) != nil && mapkey(p) != "$first" ==> s.M == old(s.M) && has(s.M, "$first") == old(has(s.M, "$first")) && s.M["$first"] == old(s.M["$first"])
 //@   ensures[C10] other_keys_untouched: old(s.M) != nil ==> forall(k, String, k != mapkey(p) ==> has(s.M, k) == old(has(s.M, k)) && s.M[k] == old(s.M[k]))
@@ -311,11 +311,11 @@ package internals
 //@   fresh
 //@   requires wfctx(c)
 //@   modifies nothing
-//@   ensures[C07] code: result.Code == ""
+//@   ensures[C07,C11,C17] code: result.Code == ""
 //@   ensures[C10] path: result.Path == prender(PSEQ(c.Path))
 //@   ensures[C11] dtype: result.Dtype == c.DType
 //@   ensures[C11] value: result.Value == c.Data
-//@   ensures[C07] params_reset: result.Params == nil
+//@   ensures[C07,C11,C17] params_reset: result.Params == nil
 //@   ensures[C07] message_reset: result.Message == ""
 //@   ensures[C07] err_reset: result.Err == nil
 
